@@ -98,6 +98,14 @@ impl Relation for InnerCircuit {
     }
     fn circuit(&self, s: &ZkStdLib, l: &mut impl Layouter<F>, _i: Value<Self::Instance>, w: Value<Self::Witness>) -> Result<(), Error> {
         let m = s.assign_many(l, &w.transpose_array())?;
+        if !self.0.poseidon {
+            // an inner relation without the Poseidon chip (no additive-selector argument in the inner constraint system)
+            use midnight_circuits::instructions::ArithInstructions;
+            let o1 = s.mul(l, &m[0], &m[1], None)?;
+            let o2 = s.add(l, &m[0], &m[1])?;
+            s.constrain_as_public_input(l, &o1)?;
+            return s.constrain_as_public_input(l, &o2);
+        }
         let o1 = s.poseidon(l, &m)?;
         let o2 = s.poseidon(l, &m[1..])?;
         s.constrain_as_public_input(l, &o1)?;
@@ -126,6 +134,8 @@ fn arch_of(name: &str) -> ZkStdLibArch {
         "poseidon_p2" => ZkStdLibArch { nr_pow2range_cols: 2, ..base },
         "poseidon_p3" => ZkStdLibArch { nr_pow2range_cols: 3, ..base },
         "poseidon_p4" => ZkStdLibArch { nr_pow2range_cols: 4, ..base },
+        "plain" => ZkStdLibArch::default(),
+        "plain_sha256" => ZkStdLibArch { sha2_256: true, ..ZkStdLibArch::default() },
         _ => base,
     }
 }
@@ -164,7 +174,11 @@ fn run<const NB: usize>(sc: &J, out: &mut dyn Write) {
         }
     };
     let witnesses: [[F; 2]; NB] = core::array::from_fn(|_| [F::random(&mut rng), F::random(&mut rng)]);
-    let instances: [[F; 2]; NB] = witnesses.map(|w| [<PoseidonChip<F> as HashCPU<F, F>>::hash(&w), <PoseidonChip<F> as HashCPU<F, F>>::hash(&w[1..])]);
+    let instances: [[F; 2]; NB] = if relation.0.poseidon {
+        witnesses.map(|w| [<PoseidonChip<F> as HashCPU<F, F>>::hash(&w), <PoseidonChip<F> as HashCPU<F, F>>::hash(&w[1..])])
+    } else {
+        witnesses.map(|w| [w[0] * w[1], w[0] + w[1]])
+    };
     let proofs: [Vec<u8>; NB] = core::array::from_fn(|i| {
         midnight_zk_stdlib::prove::<InnerCircuit, LightFS>(&inner_srs, &inner_pk, &relation, &instances[i], witnesses[i], &mut rng).expect("inner proof")
     });
